@@ -160,8 +160,12 @@ class KeyHistory(object):
         for name in sorted(keys_cfg):
             c = keys_cfg[name]
             clock.set(c['created_us'])
-            spec = {'alg': c['alg'], 'uids': [c['uid']], 'usage': c.get('usage', 'CS'), 'subkeys': [], 'created_us': c['created_us']}
+            spec = {'alg': c['alg'], 'uids': [c['uid']], 'usage': c.get('usage', 'CS'), 'subkeys': [], 'created_us': c['created_us'],
+                    'created_tz': c.get('created_tz')}
             k = world.build_key(spec, name)
+            hk = self.hooks.get('on_new_component')
+            if hk:
+                hk(self, name, k)
             tk = bridge.ref_tkey(bytes(k))
             mk = MKey(name, tk.pub.fingerprint, c['alg'], tk.pub.created)
             mu = MUid('uid', k.userids[0].userid.encode('utf-8'))
@@ -334,8 +338,12 @@ class KeyHistory(object):
     def _op_add_subkey(self, st, name, k, mk):
         if len(mk.subs) >= 3:
             return 'full'
-        sub = world.new_key(st['alg'], '%s.%s' % (name, st['id']))
+        sub = world.new_key(st['alg'], '%s.%s' % (name, st['id']), created_tz=st.get('created_tz'),
+                            created_us=st.get('created_us'))
         fp = bytes.fromhex(str(sub.fingerprint))
+        hk = self.hooks.get('on_new_component')
+        if hk:
+            hk(self, name, sub)
         with self._unlocked(name):
             k.add_subkey(sub, usage=world.flags_from(st['usage']))
             if mk.passphrase is not None:
